@@ -725,6 +725,9 @@ func (s *Lexer) getNextToken() (*Token, error) {
 		token.TokenType = COMMENT
 	case SDASH:
 		token.TokenType = MINUS
+	case SCOMMENTSTART:
+		// `--` at the very end of the input is an empty line comment
+		token.TokenType = COMMENT
 	case SCOLONEQ:
 		token.TokenType = COLONEQ
 	case SOPERATORSTART:
